@@ -328,3 +328,38 @@ Proof.
   - rewrite (Hfa eq_refl) in *. destruct (tobs_fresh b); cbn in *; try discriminate. right; split; reflexivity.
   - rewrite (Hfa eq_refl), (Hfb eq_refl) in Ef. discriminate.
 Qed.
+
+(* overlapping reads: a failed fetch leaves the other read alone; a garbage answer drags it to revision 0 *)
+Lemma overlap_failed_fetch : forall r l, fetch_succeeds l = false -> l <> Garbage200 ->
+  overlap_model r l = (RespError, [r], r).
+Proof. intros r l Hf Hl. destruct l; try discriminate Hf; try congruence; reflexivity. Qed.
+
+Lemma overlap_garbage : forall r, overlap_model r Garbage200 = (RespOk, [r; 0], 0).
+Proof. reflexivity. Qed.
+
+Lemma list_eqb_N_eq l1 l2 : list_eqb N.eqb l1 l2 = true -> l1 = l2.
+Proof.
+  revert l2. induction l1 as [|x l1 IH]; intros [|y l2]; cbn; try discriminate; [reflexivity|].
+  intros H. apply andb_true_iff in H. destruct H as [H1 H2]. apply N.eqb_eq in H1. subst. f_equal. auto.
+Qed.
+
+Lemma c18_overlap_sound : forall r l b_resp sets a_scan a_nonempty,
+  (0 < r)%N -> (forall v, l = ReachOk v -> (r <= v)%N) ->
+  c18_check (OverlapCase r l b_resp sets a_scan a_nonempty) = true ->
+  c18_oracle (OverlapCase r l b_resp sets a_scan a_nonempty) = None
+  \/ (c18_oracle (OverlapCase r l b_resp sets a_scan a_nonempty) = Some F_garbage_status /\ l = Garbage200).
+Proof.
+  intros r l b_resp sets a_scan a_nonempty Hr Hv H. unfold c18_check in H.
+  destruct l as [v| | |]; unfold overlap_model, sync_read in H; unfold c18_oracle;
+    repeat (apply andb_true_iff in H; destruct H as [H ?]);
+    apply N.eqb_eq in H1; subst a_scan; apply Bool.eqb_prop in H0; subst a_nonempty;
+    apply list_eqb_N_eq in H2; subst sets.
+  - left. specialize (Hv v eq_refl).
+    assert (E1 : (r <=? v)%N = true) by (apply N.leb_le; lia).
+    assert (E2 : (0 <? v)%N = true) by (apply N.ltb_lt; lia). rewrite E1, E2. reflexivity.
+  - left. destruct b_resp; try discriminate. cbn. rewrite N.eqb_refl, N.leb_refl.
+    assert (E2 : (0 <? r)%N = true) by (apply N.ltb_lt; lia). rewrite E2. reflexivity.
+  - left. destruct b_resp; try discriminate. cbn. rewrite N.eqb_refl, N.leb_refl.
+    assert (E2 : (0 <? r)%N = true) by (apply N.ltb_lt; lia). rewrite E2. reflexivity.
+  - right. split; [|reflexivity]. cbn. destruct r; reflexivity.
+Qed.
